@@ -31,3 +31,55 @@ pub fn prestate(a: &[&str]) -> Option<String> {
     let _ = parse_bytes;
     Some(format!("ok {};{}:{} steps=0 loads=-", ans, s1, s2))
 }
+
+/// `ppreal sse2|avx2 find|pre <needle> <i1> <i2> <nbase> <search-needle> <hbase> <hay>`:
+/// the public x86_64 packed-pair finders (real SSE2/AVX2 code; loads are not traced).
+pub fn ppreal(a: &[&str]) -> Option<String> {
+    if a.len() != 9 {
+        return None;
+    }
+    use crate::place::Placed;
+    use memchr::arch::all::packedpair::Pair;
+    let needle = parse_bytes(a[2])?;
+    let i1: u8 = a[3].parse().ok()?;
+    let i2: u8 = a[4].parse().ok()?;
+    let sneedle = parse_bytes(a[6])?;
+    let hay = parse_bytes(a[8])?;
+    let pn = Placed::new(&sneedle, a[5].parse().ok()?);
+    let ph = Placed::new(&hay, a[7].parse().ok()?);
+    verif::reset();
+    let pair = match Pair::with_indices(&needle, i1, i2) {
+        None => return Some("ok badpair steps=0 loads=? minlen=0".to_string()),
+        Some(p) => p,
+    };
+    let pre = a[1] == "pre";
+    let (minlen, r) = match a[0] {
+        "sse2" => {
+            let f = memchr::arch::x86_64::sse2::packedpair::Finder::with_pair(&needle, pair)?;
+            let m = f.min_haystack_len();
+            (m, std::panic::catch_unwind(std::panic::AssertUnwindSafe(|| {
+                if pre { f.find_prefilter(ph.slice()) } else { f.find(ph.slice(), pn.slice()) }
+            })))
+        }
+        "avx2" => {
+            let f = memchr::arch::x86_64::avx2::packedpair::Finder::with_pair(&needle, pair)?;
+            let m = f.min_haystack_len();
+            (m, std::panic::catch_unwind(std::panic::AssertUnwindSafe(|| {
+                if pre { f.find_prefilter(ph.slice()) } else { f.find(ph.slice(), pn.slice()) }
+            })))
+        }
+        _ => return None,
+    };
+    let rep = verif::take();
+    let steps: u64 = rep.ticks.iter().sum();
+    match r {
+        Err(e) => {
+            let msg = crate::util::panic_message(&*e);
+            Some(format!("{} [{}] minlen={}", crate::util::classify_panic(&msg), msg.replace('\n', " "), minlen))
+        }
+        Ok(v) => {
+            let oracle = if pre { "-".to_string() } else { crate::util::fmt_opt(crate::ops::naive_find(&hay, &sneedle)) };
+            Some(format!("ok {} steps={} loads=? oracle={} minlen={}", crate::util::fmt_opt(v), steps, oracle, minlen))
+        }
+    }
+}
